@@ -81,7 +81,10 @@ def check_program(rep, g, src_case, model_case, idx, line, model, dist):
     if "PANIC" in line:
         viol("the assembler panicked: " + line[:160])
         return True
-    if sh != fr:
+    both_rejected = sh.startswith("ERR") and fr.startswith("ERR")
+    if both_rejected and sh != fr:
+        dist["rejected-with-different-error-kinds"] += 1      # both instances reject: the kind of error is not part of the property
+    if sh != fr and not both_rejected:
         viol("a program compiles differently on an assembler instance that compiled other programs before (%s vs %s)"
              % (sh[:60], fr[:60]))
         found = True
